@@ -80,7 +80,10 @@ EXPLANATION = (
     'argsOf_matches / accept_formats_canonical (such arguments exist: a tuple, or a mapping thanks to one-type-per-key and the '
     'named/unnamed exclusion), malformed_rejected (rejected by CPython whatever the arguments => rejected by the parser), '
     'reject_reasons (rejected although CPython can format => ArgumentIndexingMixture / ArgumentTypeMismatch / WidthRangeError / '
-    'PrecisionRangeError), error_means_malformed. For all strings: reason_true (the documented reason given is true of the '
+    'PrecisionRangeError), error_means_malformed, tuple_exact (if CPython formats an accepted string with a tuple, the parser reports '
+    'no named argument and exactly as many unnamed ones as the tuple has items), plainPercent_spec (the domain spelled out over '
+    'the specifications the scanner reads). For all strings: mapping_keys_needed (a mapping CPython can format an accepted string '
+    'with has every reported key), reason_true (the documented reason given is true of the '
     'specifications the scanner reads: a literal width > 2^31-1; a literal precision > 2^31-1, or > 2^31-4 on an integer conversion; '
     'a named and a positional specification; two specifications with one key and different types), warnings_inert (recording '
     'warnings changes neither acceptance, error class, argument lists nor items), error_own (only own Error classes; asserts and the termination '
